@@ -956,6 +956,6 @@ class GameCoordinator:
             # the name is chosen by the agent (any text): keep it usable as ONE component of a file name
             safe_name = re.sub(r"[/\\\x00]", "_", str(agent_name)).encode("utf-8", errors="replace")[:150].decode("utf-8", errors="ignore")
             filename = os.path.join(location, f"{datetime.now():%Y-%m-%d}_{safe_name}_{agent_role}.jsonl")
-            with jsonlines.open(filename, "a") as writer:
+            with jsonlines.open(filename, "a", dumps=json.dumps) as writer: # ASCII-only lines (texts of agents may hold unpaired surrogates)
                 writer.write(self._agent_trajectories[agent_addr])
             self.logger.info(f"Trajectory of {agent_addr} strored in {filename}")
